@@ -173,7 +173,9 @@ pub fn clientserver(tier: Tier, w: &Arc<World>) -> Scn {
     let d = Draw { w };
     let sandbox = sb(w);
     // the property has no fault quantifier: the network is clean, the interleaving of the four threads varies
-    let fc = FaultCfg { sched_w: [6, 2, 2, 1, 1], ..Default::default() };
+    // Delays only reorder the threads; they are kept tiny so that even a 65 535-block window is
+    // processed well inside the smallest timeout (no "slow node" fault is meant here).
+    let fc = FaultCfg { sched_w: [6, 2, 2, 1, 1], sched_table: [0, US, 2 * US, 5 * US, 10 * US], ..Default::default() };
     set_faults(w, fc);
     let cs = client_server(&d, w, &sandbox, "C14", None, tier, true);
     let desc = cs.desc.clone();
